@@ -115,3 +115,12 @@ impl SnmpPriv for DesKey {
         Ok(scoped_pdu)
     }
 }
+
+#[cfg(gufo_snmp_verif)]
+impl DesKey {
+    /// Verification hook (compiled only with `--cfg gufo_snmp_verif`):
+    /// place the salt counter, the next message carries this salt.
+    pub fn verif_set_salt(&mut self, value: u64) {
+        self.salt_value = value as u32;
+    }
+}
